@@ -915,6 +915,23 @@ static void ev_complete_fire(void *a)
     }
 }
 
+void env_reset_deviations(void)
+{
+    /* end of the explored part of an execution: the environment behaves by default from here on */
+    cfg.io_menu = 0;
+    cfg.fault_data = cfg.fault_resource = cfg.fault_connect = 0;
+    for (int fd = 0; fd < fd_hi; fd++)
+        if (fdt[fd].kind == K_TCP) {
+            fdt[fd].trickle_left = 0;
+            if (fdt[fd].stalled) {
+                fdt[fd].stalled = 0;
+                regs_reapply_fd(fd);
+            }
+            if (fdt[fd].conn_pending && !fdt[fd].silent)
+                conn_complete(fd);
+        }
+}
+
 int env_stalled_count(void)
 {
     int n = 0;
